@@ -33,7 +33,7 @@ ASSUMPTIONS = ['which hostile names are accepted is not prescribed; ordinary ide
                'names are str (the quantifier ranges over strings)']
 FLOORS = {'quick': {'adds_accepted': 5000, 'adds_rejected_duplicate': 1500, 'adds_rejected_none': 300, 'hostile_tried': 4000,
                     'hostile_rejected': 500, 'hostile_accepted': 500, 'id_probes': 10000, 'unknown_name_probes': 5000,
-                    'full_checks': 20000, 'module_histories': 40, 'module_hostile_tried': 300, 'contract:TagLibrary.bijection': 20000,
+                    'full_checks': 20000, 'module_histories': 24, 'module_hostile_tried': 210, 'contract:TagLibrary.bijection': 20000,
                     'reach:Tags.TagLibrary.add_tag': 8000},
           'thorough': {'adds_accepted': 400000, 'module_histories': 2000}}
 EXHAUSTIVE = {}
